@@ -82,7 +82,7 @@ QuoteV(v) == IF ~v.q THEN [v EXCEPT !.q = TRUE] ELSE [V("quote", 0, "", "", TRUE
 OPS    == {"quote", "if", "progn", "let", "let*", "flet", "labels", "lambda", "cond", "and", "or",
            "set!", "handler-bind", "ignore-errors", "dotimes", "quasiquote", "thread-first", "thread-last", "macrolet"}
 MACROS == {"defun", "defmacro"}
-FUNS   == {"+", "-", "*", "=", "<", ">", "<=", ">=", "not", "list", "cons", "car", "cdr", "first", "rest",
+FUNS   == {"+", "-", "*", "/", "=", "<", ">", "<=", ">=", "not", "list", "cons", "car", "cdr", "first", "rest",
            "length", "identity", "nil?", "set", "funcall", "apply", "error", "rethrow", "probe", "boom",
            "load-string", "in-package", "use-package", "export", "capture",
            "macroexpand", "macroexpand-1", "eval", "gensym", "equal?",
@@ -393,6 +393,23 @@ AnyUntracked(args) == \E j \in 1..Len(args) : args[j].t = "float" /\ args[j].s =
 Scaled(v) == IF v.t = "int" THEN 16 * v.n ELSE v.n
 RECURSIVE ScaledSum(_)
 ScaledSum(a) == IF Len(a) = 0 THEN 0 ELSE Scaled(a[1]) + ScaledSum(Rest(a))
+\* division: an int when both are ints and the division is exact, otherwise a float (on the grid when it lands there;
+\* division by zero gives an infinity or NaN, floats the machine does not track)
+Abs(x) == IF x < 0 THEN 0 - x ELSE x
+Sgn(x, y) == IF (x < 0) = (y < 0) THEN 1 ELSE 0 - 1
+Div2(x, y) ==
+  IF (x.t = "float" /\ x.s = "?") \/ (y.t = "float" /\ y.s = "?") THEN VFloatAny
+  ELSE IF x.t = "int" /\ y.t = "int"
+       THEN (IF y.n = 0 THEN VFloatAny
+             ELSE IF Abs(x.n) % Abs(y.n) = 0 THEN VInt(Sgn(x.n, y.n) * (Abs(x.n) \div Abs(y.n)))
+             ELSE IF (16 * Abs(x.n)) % Abs(y.n) = 0 THEN VFloat(Sgn(x.n, y.n) * ((16 * Abs(x.n)) \div Abs(y.n)))
+             ELSE VFloatAny)
+  ELSE LET sx == Scaled(x)  sy == Scaled(y) IN
+       IF sy = 0 THEN VFloatAny
+       ELSE IF (16 * Abs(sx)) % Abs(sy) = 0 THEN VFloat(Sgn(sx, sy) * ((16 * Abs(sx)) \div Abs(sy)))
+       ELSE VFloatAny
+RECURSIVE DivFold(_, _)
+DivFold(acc, rest) == IF Len(rest) = 0 THEN acc ELSE DivFold(Div2(acc, rest[1]), Rest(rest))
 \* product on the grid: acc and every factor are 16 x their value; -1 in the second component when it leaves the grid
 RECURSIVE ScaledProd(_, _)
 ScaledProd(a, acc) == IF Len(a) = 0 THEN <<acc, 0>>
@@ -461,10 +478,15 @@ PureBuiltin(name, a) ==
                      ELSE IF ~NumArgs(a) THEN bad
                      ELSE IF AnyUntracked(a) THEN good(VFloatAny)
                      ELSE LET pr == ScaledProd(a, 16) IN IF pr[2] < 0 THEN good(VFloatAny) ELSE good(VFloat(pr[1]))
-    [] name = "-" -> IF n = 0 \/ ~NumArgs(a) THEN bad
+    [] name = "-" -> IF n = 0 THEN good(VInt(0))
+                     ELSE IF ~NumArgs(a) THEN bad
                      ELSE IF IntArgs(a) THEN (IF n = 1 THEN good(VInt(0 - a[1].n)) ELSE good(VInt(a[1].n - SumSeq(Rest(a)))))
                      ELSE IF AnyUntracked(a) THEN good(VFloatAny)
                      ELSE IF n = 1 THEN good(VFloat(0 - a[1].n)) ELSE good(VFloat(Scaled(a[1]) - ScaledSum(Rest(a))))
+    [] name = "/" -> IF ~NumArgs(a) THEN bad
+                     ELSE IF n = 0 THEN good(VInt(1))
+                     ELSE IF n = 1 THEN good(Div2(VInt(1), a[1]))
+                     ELSE good(DivFold(a[1], Rest(a)))
     [] name \in {"=", "<", ">", "<=", ">="} ->
                      IF IntArgs(a) THEN good(VBool(Cmp(name, a[1].n, a[2].n))) ELSE bad
     [] name = "not" -> good(VBool(~Truthy(a[1])))
